@@ -16,7 +16,7 @@
 //! ---- annotated ----
     #[inline]
     pub fn divmod64(&self, n: u64) -> (r: (u64, u64))
-        requires self.wf(),
+        requires self.wfa(),
         ensures r.0 as int == n as int / self.pv(), r.1 as int == n as int % self.pv(),
     {
         let p = self.p as u64;
@@ -27,7 +27,16 @@
         let nm = (n as u128) * (self.m64 as u128);
         let himul = (nm >> 64) as u64;
         let q = himul >> self.s64;
+        proof { self.lemma_wfa_cases(); }
         proof {
+          if self.p == 2 {
+            let n128 = n as u128;
+            assert(nm == n128 * 0x8000_0000_0000_0000u128);
+            assert(((nm >> 64) as u64) == n >> 1) by (bit_vector) requires nm == n128 * 0x8000_0000_0000_0000u128, n128 == n as u128;
+            let z = self.s64;
+            assert(himul >> z == himul) by (bit_vector) requires z == 0u16;
+            assert((n >> 1) * 2 <= n && n - (n >> 1) * 2 == n % 2 && n >> 1 == n / 2) by (bit_vector);
+          } else {
             let t = pow2(64 + self.s64 as nat) as int;
             let pi = p as int; let ni = n as int; let m = self.m64 as int;
             assert((nm >> 64) == nm / 0x1_0000_0000_0000_0000u128) by (bit_vector);
@@ -48,20 +57,21 @@
                 lemma_odd_not_div_pow2(pi, q as int, 64, 0x1_0000_0000_0000_0000);
                 assert(pi * (q as int) == (q as int) * pi) by (nonlinear_arith);
             }
+          }
         }
         let qp = q * p;
         if qp > n {
-            proof { lemma_fundamental_div_mod(n as int, p as int); lemma_mod_bound(n as int, p as int);
+            proof { if self.p != 2 { lemma_fundamental_div_mod(n as int, p as int); lemma_mod_bound(n as int, p as int);
                 let qq = n as int / (p as int); let rr = n as int % (p as int);
                 assert(q as int == qq + 1) by (nonlinear_arith) requires (q as int) * (p as int) > n as int, n as int == (p as int) * qq + rr, 0 <= rr < p as int, q as int == qq || q as int == qq + 1, p >= 3;
                 assert((qq + 1) * (p as int) == qq * (p as int) + p as int) by (nonlinear_arith);
-            }
+            } }
             (q - 1, p - (qp - n))
         } else {
-            proof { lemma_fundamental_div_mod(n as int, p as int); lemma_mod_bound(n as int, p as int);
+            proof { if self.p != 2 { lemma_fundamental_div_mod(n as int, p as int); lemma_mod_bound(n as int, p as int);
                 let qq = n as int / (p as int); let rr = n as int % (p as int);
                 assert(q as int == qq) by (nonlinear_arith) requires (q as int) * (p as int) <= n as int, n as int == (p as int) * qq + rr, 0 <= rr < p as int, q as int == qq || q as int == qq + 1, p >= 3;
-            }
+            } }
             (q, n - qp)
         }
     }
